@@ -23,6 +23,10 @@ class Violation(Exception):
         self.kind = kind or "mismatch"
 
 
+class KnownSkip(Exception):
+    """Raised to abandon the rest of a case after a failure that matched an open known finding."""
+
+
 class HarnessError(Exception):
     """The machinery (generator / oracle / build step) is broken - never a verdict."""
 
@@ -119,6 +123,17 @@ class Ctx:
                 self.known_hits[fid] += 1
                 return False
         raise Violation(self.sub, message, spec=spec, observed=jsonable(observed), expected=jsonable(expected), kind=kind)
+
+    def call(self, spec, what, fn, *args, **kwargs):
+        """Call the code under test where the property says the call must succeed: any exception is a violation
+        (kind 'raised'); if it matches an open known finding the case is abandoned quietly."""
+        try:
+            return fn(*args, **kwargs)
+        except (Violation, KnownSkip):
+            raise
+        except Exception as e:  # noqa: BLE001 - the contract here is 'must not raise'
+            self.fail(f"{what} raised {type(e).__name__}: {str(e)[:200]}", spec, repr(e)[:300], "a result", kind="raised")
+            raise KnownSkip()
 
     def result(self):
         return {
